@@ -28,12 +28,14 @@ class Shadow:
         self.alive = {}      # id -> kind
         self.dead = set()
         self.data = {}
+        self.rows = {}       # data frame id -> list of rows (lists of plain Python cells), None once unknown
 
     def kill(self, ids):
         for i in ids:
             self.alive.pop(i, None)
             self.dead.add(i)
             self.data.pop(i, None)
+            self.rows.pop(i, None)
         for k in [k for k in self.attrs if k[0] in ids]:
             del self.attrs[k]
         for k in [k for k in self.order if k[0] in ids]:
@@ -330,17 +332,94 @@ class Builder:
                 df = b.create_data_frame(name, "frame", col_dict=cd, data=rows or None)
                 self.born(df, b.id, "data_frames")
                 self.expect(df, "type", "frame")
+                self.sh.rows[df.id] = [list(r) for r in rows]
             add(("create_data_frame", 0.8, create_df))
             df = self.pick(b.data_frames)
             if df is not None:
                 df = self.via_group(b, "data_frames", df)
+                known = self.sh.rows.get(df.id)
 
                 def df_rows():
-                    df.append_rows([(9, "z", 1.25)])
+                    ncols = len(known[0]) if known else len(df.column_names)
+                    row = (9, "z", 1.25) + tuple(0.5 for _ in range(ncols - 3))
+                    try:
+                        df.append_rows([row])
+                    except Exception:
+                        self.sh.rows[df.id] = None
+                        raise
+                    if known is not None:
+                        known.append(list(row))
                 add(("df.append_rows", 0.3, df_rows))
 
+                def df_cell():
+                    n = len(df)
+                    if not n:
+                        return "skip"
+                    r, c = rng.randrange(n), rng.randrange(3)
+                    val = [rng.randint(-5, 5), rng.choice(["q", "ß", ""]), rng.randint(-8, 8) / 4.0][c]
+                    try:
+                        if rng.random() < 0.5:
+                            df.write_cell(val, position=(r, c))
+                        else:
+                            df.write_cell(val, col_name=["n", "txt", "v"][c], row_idx=[r])
+                    except Exception:
+                        self.sh.rows[df.id] = None
+                        raise
+                    if known is not None:
+                        known[r][c] = val
+                add(("df.write_cell", 0.4, df_cell))
+
+                def df_col():
+                    ncols = len(df.column_names)
+                    if ncols >= 5:
+                        return "skip"
+                    col = [rng.randint(-4, 4) / 2.0 for _ in range(len(df))]
+                    if not col:
+                        return "skip"
+                    try:
+                        df.append_column(col, "c%d" % ncols, datatype=nix.DataType.Double)
+                    except Exception:
+                        self.sh.rows[df.id] = None
+                        raise
+                    if known is not None:
+                        for r, v in zip(known, col):
+                            r.append(v)
+                add(("df.append_column", 0.25, df_col))
+
+                def df_churn():
+                    """Two handles of one frame that have both read it; a structural change (new column / new rows) through
+                    one, then a cell written through the other, then again through the first: every micro-step is a plain
+                    valid call, and what was written last must be what is read, whichever handle was used."""
+                    if known is None or not len(df):
+                        return "skip"
+                    cont = b.data_frames
+                    h = [df, self._fetch(cont, df, rng.choice(["name", "id", "index"]))]
+                    try:
+                        for x in h:
+                            len(x), x.column_names, x.df_shape
+                            x.read_rows([0])
+                        ncols = len(h[0].column_names)
+                        if ncols < 6 and rng.random() < 0.7:
+                            col = [rng.randint(-4, 4) / 2.0 for _ in range(len(known))]
+                            h[0].append_column(col, "c%d" % ncols, datatype=nix.DataType.Double)
+                            for r, v in zip(known, col):
+                                r.append(v)
+                        else:
+                            row = (3, "w", 0.75) + tuple(0.25 for _ in range(ncols - 3))
+                            h[0].append_rows([row])
+                            known.append(list(row))
+                        for k in (1, 0, 1):
+                            r, c = rng.randrange(len(known)), rng.randrange(len(known[0]))
+                            val = rng.randint(-5, 5) if c == 0 else (rng.choice(["q", "ß", ""]) if c == 1 else rng.randint(-8, 8) / 4.0)
+                            h[k].write_cell(val, position=(r, c))
+                            known[r][c] = val
+                    except Exception:
+                        self.sh.rows[df.id] = None
+                        raise
+                add(("df.two_handle_churn", 0.5, df_churn))
+
                 def df_units():
-                    df.units = ["mV", None, "s"]
+                    df.units = ["mV", None, "s"] + [None] * (len(df.column_names) - 3)
                 add(("df.units", 0.2, df_units))
                 self._metadata_ops(df, add, 0.2)
 
@@ -883,6 +962,18 @@ class Builder:
             if gids != lst:
                 pk = "File" if pid == "File" else byid[pid][0].split(":")[0]
                 out.append(("model:order:%s.%s" % (pk, cname), {"parent": pid, "expected": lst, "got": gids}))
+        for i, rows in self.sh.rows.items():
+            if i not in byid or rows is None:
+                continue
+            key, rec = byid[i]
+            got = rec.get("__rows__")
+            try:
+                plain = [[c[1] if isinstance(c, list) else repr(c) for c in r] for r in got]
+            except Exception:
+                plain = got
+            exp = [[repr(c) for c in r] for r in rows]
+            if plain != exp:
+                out.append(("model:frame_rows", {"entity": key, "expected": exp[:6], "got": plain[:6] if isinstance(plain, list) else plain}))
         from .snapshot import digest_array
         for i, arr in self.sh.data.items():
             if i not in byid:
